@@ -95,9 +95,11 @@ def translation_chains(fn):
             continue
         order = []
         for el in lp.iter.elts:
-            first = el.elts[0] if isinstance(el, (ast.Tuple, ast.List)) and el.elts else el
-            if isinstance(first, ast.Name) and first.id in tri_names | di_names:
-                order.append("trigraphs" if first.id in tri_names else "digraphs")
+            members = list(el.elts) if isinstance(el, (ast.Tuple, ast.List)) else [el]
+            for first in members:                 # the table may stand anywhere in the row: (table, width) or (width, table)
+                if isinstance(first, ast.Name) and first.id in tri_names | di_names:
+                    order.append("trigraphs" if first.id in tri_names else "digraphs")
+                    break
         if "digraphs" not in order:
             continue
         tnames = {x.id for x in ast.walk(lp.target) if isinstance(x, ast.Name)}
